@@ -290,7 +290,8 @@ impl From<IotaDID> for CoreDID {
 
 impl From<IotaDID> for String {
   fn from(did: IotaDID) -> Self {
-    did.into_string()
+    // `DID::into_string` is implemented in terms of this conversion; delegate to the wrapped DID.
+    did.0.into()
   }
 }
 
